@@ -250,8 +250,9 @@ def cancel(rng):
     """C16: every request kind abandoned after k polls of its handler future, under empty and
     saturated mailboxes (fillers keep the topic / subscription mailbox full)."""
     g = ConcGen(rng, caps=(1, 2, 16))
-    g.setup(1, 1, dls=(10,))
+    g.setup(1, 2, dls=(10,))
     s = sorted(g.subs)[0]
+    s_other = sorted(g.subs)[1]          # a second subscription of the topic that nobody saturates
     t = g.topics[0]
     s_new = sname("p", "fresh")
     g.emit("pub %s %s" % (hx(t), jl(_payload(rng, "pre") for _ in range(2))))
@@ -289,14 +290,17 @@ def cancel(rng):
     g.emit("pub %s %s" % (hx(t), _payload(rng, "probe")))
     g.emit("pull %s 1000 1" % hx(s_new))
     g.emit("pull %s 1000 1" % hx(s))
+    g.emit("pull %s 1000 1" % hx(s_other))
     g.emit("stats " + hx(s))
     g.emit("# drain")
     g.emit("adv 711000000")
     g.emit("pull %s 1000 1" % hx(s))
+    g.emit("pull %s 1000 1" % hx(s_other))
     g.emit("pull %s 1000 1" % hx(s_new))
     # whatever was abandoned, everything that exists can still be deleted (and is then gone)
     g.emit("dsub " + hx(s_new))
     g.emit("dsub " + hx(s))
+    g.emit("dsub " + hx(s_other))
     g.emit("gsub " + hx(s_new))
     g.emit("gsub " + hx(s))
     g.emit("wtsubs %s 1000" % hx(t))
